@@ -2,7 +2,7 @@ SPEC = {
     'id': 'C22',
     'harness': 'hC22',
     'coq_dir': 'C22',
-    'claimed': False,
+    'claimed': True,
     'theorems': ['C22_accepted_implies_acceptable_partial', 'C22_group_members_checked',
                  'C22_rejected_leaves_pool_unchanged', 'C22_accepted_appends_one',
                  'C22_accepted_implies_acceptable_refuted', 'C22_refuted_forward', 'C22_refuted_wrapper',
